@@ -13,7 +13,7 @@ from gvsim.kernel import stream
 from gvsim.lib import ACTIONS, COLORS, action_of, mk_state, world_of
 from gvsim.props import common
 from gvsim.scripted_rng import ScriptedRng
-from gvsim.sim import Raised, Sim, sut
+from gvsim.sim import Raised, Sim, inject_rng, sut
 
 PROP = 'C11'
 TIERS = {'quick': {'runs': 2400, 'wall': 100}, 'thorough': {'runs': 60000, 'wall': 1500}}
@@ -266,7 +266,7 @@ class Runner:
 
     def step(self, world, k, rng):
         cl = self.env_for(world)
-        cl.env._rng = rng
+        inject_rng(cl.env, rng)
         s0 = mk_state(world)
         cl.complog.clear()
         from gym_gridverse import rng as gvrng
